@@ -192,3 +192,36 @@ def _base(t):
     while t[0] == "mcall" and t[2] in ("to_sparse_coo", "to", "coalesce", "view"):
         t = strip_typed(t[1])
     return t
+
+
+def sparse_csr_from_coalesced(ctx) -> None:
+    """SparseOperator._from_operator_repr hands `to_sparse_csr()` a COO tensor that went through `sparse_add` (which
+    coalesces: sorts the indices and sums duplicates) after the last `sparse_kron` — on every path, also for a single
+    term.  `sparse_kron` labels its result coalesced without sorting it, so a term that bypasses the sum is converted to
+    CSR from unsorted indices and the matrix is silently wrong."""
+    prog = ctx.prog
+    f = prog.func("emu_sv.sparse_operator.SparseOperator._from_operator_repr")
+    it = Interp(prog, f.cls, inline=lambda c, r, d: False, loop_iters=(1,), max_paths=20000)
+    n = 0
+    bad = None
+    for p in it.run(f):
+        if p.status != "return":
+            continue
+        r = strip_typed(p.retval)
+        op = strip_typed(r[1][0]) if r[0] == "tuple" and r[1] else r
+        if not (op[0] == "new" and op[1].endswith("SparseOperator") and op[2]):
+            continue
+        n += 1
+        d = strip_typed(op[2][0])
+        if not (d[0] == "mcall" and d[2] == "to_sparse_csr"):
+            bad = bad or f"the operator is built from {show(d)[:60]}, not from <COO>.to_sparse_csr()"
+            continue
+        src = strip_typed(d[1])
+        ok = (src[0] == "call" and src[1].endswith("sparse_add")) or (src[0] == "mcall" and src[2] == "coalesce")
+        if not ok:
+            bad = bad or f"to_sparse_csr() is applied to {show(src)[:70]}"
+    ctx.require(n >= 1, "TABLES-terms: no returning path of SparseOperator._from_operator_repr builds a SparseOperator")
+    ctx.ob("TABLES-terms", "SparseOperator|CSR from a coalesced sum", f.loc(), bad is None,
+           "the COO tensor converted to CSR is the result of sparse_add (coalesced) on every path" if bad is None else
+           f"SparseOperator._from_operator_repr: {bad} on some path — a product of sparse_kron that skips the coalescing sum has "
+           f"unsorted indices and gives a wrong CSR matrix (e.g. a single term containing a Hadamard on a qubit other than the last)")
